@@ -58,6 +58,17 @@ theorem poolDequeue_cons (P : Params) (hP : P.ans = serialAns) (p : PoolSt) (x :
     · simp only [poolDequeue, PoolSt.record, hcall]; exact h.status
     · simp only [poolDequeue, PoolSt.record, hcall]; exact hq.2
 
+/-- `get_status` on the healthy serial pool: the answer is 0 and the pool still holds the same items -/
+theorem poolStatus_ok (P : Params) (hP : P.ans = serialAns) (p : PoolSt) (items : List Blk) (h : PoolOk p items) :
+    (poolStatus P p).2 = 0 ∧ PoolOk (poolStatus P p).1 items := by
+  have hst := h.status
+  have hcall : Pool.Serial.call rc0 p.ser .getStatus = { p.ser with rets := p.ser.rets ++ [.status p.ser.status] } := rfl
+  refine ⟨?_, ?_, ?_⟩
+  · simp only [poolStatus, hP, serialAns, hcall]
+    simp [hst]
+  · simp only [poolStatus, PoolSt.record, hcall]; exact hst
+  · simp only [poolStatus, PoolSt.record, hcall]; exact h.queue
+
 /-! ### worked blocks -/
 
 theorem isFrag_worked (P : Params) (x : Blk) : isFrag (processBlock P x) = isFrag x :=
